@@ -8,7 +8,7 @@ from .common import *
 
 META = {
     "level": "other",
-    "explanation": "Wiring check of the two implementations of a bit-level region (necessary: any mismatch mis-packs some layout): (R1) at the 7 sites where Bitwise, Bytewise, BitsSwapped and ByteSwapped instantiate Transformed/Restreamed, decoder and encoder are an inverse pair of the independent helper table, the decoder is the one that produces the representation the inner construct works on, and the sized and the streaming branch of a macro use the same pair in the same roles; (R2) unit arithmetic with exact rationals: Transformed(sub, dec, da, enc, ea) needs da * ratio(dec) = sizeof(sub) = ea / ratio(enc)... i.e. da = ea = size / ratio(dec); Restreamed(sub, dec, du, enc, eu, sc) needs du = input granule of dec, eu = input granule of enc and sc(n) = n / ratio(dec); (R3) BitsInteger._parse/_build are duals (same parameters consulted the same way, same guards, mutually inverse helper chain with the swap step guarded by the same evaluated flag and placed on the stream side) and the lookup tables of lib/binary.py are inverse by construction; (R4) BitStruct is Bitwise(Struct(...)); the streaming branch is reached only through the SizeofError handler; RestreamedBytesIO.read feeds the decoder chunks of exactly decoderunit and hands out exactly `count` units from the front of its buffer, write appends to its buffer and flushes slices of exactly encoderunit from the front (FIFO), close refuses leftovers. R4 also: a sized read that meets the end of the substream returns b'' and leaves buffer and tell() untouched, a successful read advances tell() by the units handed out; (R5) reference forms of lib/binary.py decided on path summaries with bound terms constant-folded for widths 1..72: integer2bits accepts exactly the two's-complement / unsigned range, encodes negatives as number + 2^width and fills the buffer backwards with number & 1 / number >>= 1; bits2integer accumulates (number << 1) | bit in order and subtracts 2^len exactly when signed and the leading bit is set (first-bit test or magnitude >= 2^(len-1)); integer2bytes/bytes2integer are int.to_bytes/from_bytes(..., 'big', signed=signed); swapbytes reverses, swapbytesinbits reverses 8-bit groups keeping each group's bit order, swapbitsinbytes maps through the bit-reversal table; the three lookup tables are the documented comprehensions (as terms, not text).",
+    "explanation": "(R7) who may seek: only the frozen set of position-moving classes seeks the stream it is handed (RestreamedBytesIO refuses seeks). Wiring check of the two implementations of a bit-level region (necessary: any mismatch mis-packs some layout): (R1) at the 7 sites where Bitwise, Bytewise, BitsSwapped and ByteSwapped instantiate Transformed/Restreamed, decoder and encoder are an inverse pair of the independent helper table, the decoder is the one that produces the representation the inner construct works on, and the sized and the streaming branch of a macro use the same pair in the same roles; (R2) unit arithmetic with exact rationals: Transformed(sub, dec, da, enc, ea) needs da * ratio(dec) = sizeof(sub) = ea / ratio(enc)... i.e. da = ea = size / ratio(dec); Restreamed(sub, dec, du, enc, eu, sc) needs du = input granule of dec, eu = input granule of enc and sc(n) = n / ratio(dec); (R3) BitsInteger._parse/_build are duals (same parameters consulted the same way, same guards, mutually inverse helper chain with the swap step guarded by the same evaluated flag and placed on the stream side) and the lookup tables of lib/binary.py are inverse by construction; (R4) BitStruct is Bitwise(Struct(...)); the streaming branch is reached only through the SizeofError handler; RestreamedBytesIO.read feeds the decoder chunks of exactly decoderunit and hands out exactly `count` units from the front of its buffer, write appends to its buffer and flushes slices of exactly encoderunit from the front (FIFO), close refuses leftovers. R4 also: a sized read that meets the end of the substream returns b'' and leaves buffer and tell() untouched, a successful read advances tell() by the units handed out; (R5) reference forms of lib/binary.py decided on path summaries with bound terms constant-folded for widths 1..72: integer2bits accepts exactly the two's-complement / unsigned range, encodes negatives as number + 2^width and fills the buffer backwards with number & 1 / number >>= 1; bits2integer accumulates (number << 1) | bit in order and subtracts 2^len exactly when signed and the leading bit is set (first-bit test or magnitude >= 2^(len-1)); integer2bytes/bytes2integer are int.to_bytes/from_bytes(..., 'big', signed=signed); swapbytes reverses, swapbytesinbits reverses 8-bit groups keeping each group's bit order, swapbitsinbytes maps through the bit-reversal table; the three lookup tables are the documented comprehensions (as terms, not text).",
     "undecided": "Widths above 72 in the constant-folded bound checks; helpers rewritten in a form none of the R5 rules recognises are reported as undecided (exit 2), not decided.",
     "trusted_base": ["python ast (3.12)", "sa.summ summariser", "sa/tables.py HELPER_UNITS/INVERSE_PAIRS (semantic facts from the property statement)"],
     "assumptions": ["sub-construct size is a multiple of the unit (documented precondition of Bitwise/Bytewise)"],
@@ -37,6 +37,38 @@ def lam_ratio(t):
     if not (t and t[0] == "lam" and t[1] == 1):
         return None
     return size_ratio(t[2], ("bv", 0))
+
+
+# who may seek: the classes whose _parse/_build/_actualsize move the position of the stream they are handed (confirmed by reading; each is
+# documented not to work on a streamed bit-level region, where RestreamedBytesIO.seek refuses everything but a no-op)
+SEEKERS = {"GreedyRange": {"_parse"}, "Lazy": {"_parse"}, "LazyArray": {"_parse"}, "LazyStruct": {"_parse"}, "NullTerminated": {"_parse"},
+           "OffsettedEnd": {"_parse"}, "Peek": {"_parse"}, "Pointer": {"_parse", "_build"}, "RawCopy": {"_parse", "_build"}, "Seek": {"_parse", "_build"},
+           "Select": {"_parse"}, "Union": {"_parse"}}
+
+
+def seekers(ctx, rule):
+    """A construct that did not seek before must not start to: Bitwise / Bytewise / BitsSwapped over a construct without a fixed size hand it a
+    RestreamedBytesIO, whose seek() accepts only the current position -- a seek that replaces a read (skipping padding, jumping over a
+    payload) works on the pre-read path and raises on the streamed one, so the same layout parses or not depending on which path the macro took."""
+    M = ctx.model
+    n = 0
+    for ci in M.construct_classes():
+        if ci.relpath.endswith("debug.py"):
+            continue
+        for meth in ("_parse", "_build", "_actualsize"):
+            if meth not in ci.methods:
+                continue
+            fi = M.method(ci.name, meth)
+            paths = paths_of(ctx, fi, ci.name)
+            n += 1
+            sk = [e for p in paths for e in p.events if e.kind == "SEEK" and e["stream"] in (STREAM, ("param", "stream"))]
+            allowed = meth in SEEKERS.get(ci.name, ())
+            if sk and not allowed:
+                ctx.ob(rule, fi, False, "%s.%s seeks the stream it is handed; it did not before, and inside a streamed bit-level region (RestreamedBytesIO) every seek but a no-op raises" % (ci.name, meth),
+                       key="%s.%s seeks" % (ci.name, meth), node=sk[0].node)
+            else:
+                ctx.ob(rule, fi, True, "%s.%s %s" % (ci.name, meth, "is one of the position-moving classes" if sk else "does not seek"), key="%s.%s seeks" % (ci.name, meth))
+    ctx.floor(rule, 100)
 
 
 def run(ctx):
@@ -379,6 +411,7 @@ def rest(ctx):
         if o.rule == "C07.R1" and str(o.where).split(".")[0] in ("Struct", "Sequence"):
             ctx.ob("C10.R6", o.where, o.ok, o.what, key=o.key, loc=o.loc, detail=o.detail)
     ctx.floor("C10.R6", 10)
+    seekers(ctx, "C10.R7")
     # which of the two region implementations runs is decided by subcon.sizeof(): the sizing methods are side-effect free and translate a
     # missing key (e.g. this._index in an element width) into SizeofError instead of inventing a value (shared with C05.R1)
     from . import C05
